@@ -19,7 +19,7 @@ def libdir():
     return None
 
 
-def build(srcs, out, cxx=True, flags=(), link_tbb=False, link_malloc=False, timeout=300, includes=()):
+def build(srcs, out, cxx=True, flags=(), link_tbb=False, link_malloc=False, timeout=300, includes=(), tbb_dir=None):
     cmd = ['g++' if cxx else 'gcc']
     cmd += ['-std=c++17'] if cxx else ['-std=gnu11']
     cmd += ['-O1', '-g0', '-w', '-I', os.path.join(REPO, 'include'), '-I', os.path.join(os.path.dirname(os.path.abspath(__file__)))]
@@ -27,7 +27,11 @@ def build(srcs, out, cxx=True, flags=(), link_tbb=False, link_malloc=False, time
         cmd += ['-I', i]
     cmd += list(flags) + list(srcs) + ['-o', out, '-lpthread']
     if link_tbb or link_malloc:
-        d = libdir()
+        d = tbb_dir
+        if link_tbb and not d:
+            # the library is compiled from /repo's CURRENT src/tbb (about 3 s on 16 cores), never taken from a prebuilt tree
+            d = build_tbb_from_source(os.path.join(os.path.dirname(os.path.abspath(out)), 'libtbb_src'))
+        d = d or libdir()
         if not d:
             raise NativeError('no built libtbb.so under %s/_build' % REPO)
         cmd += ['-L', d, '-Wl,-rpath,' + d]
@@ -65,3 +69,30 @@ def run(cmd, timeout=60, mem=8 << 30):
         return p.returncode, p.stdout.decode(errors='replace')
     except subprocess.TimeoutExpired as e:
         return 'timeout', (e.stdout or b'').decode(errors='replace')
+
+
+def build_tbb_from_source(outdir, jobs=16):
+    """Compile /repo/src/tbb/*.cpp (CURRENT working tree) into <outdir>/libtbb.so.12 so that replays of src/tbb changes do not depend on a
+    prebuilt library.  Returns the directory (to be used as -L / rpath)."""
+    import concurrent.futures as cf
+    os.makedirs(outdir, exist_ok=True)
+    srcs = sorted(glob.glob(os.path.join(REPO, 'src', 'tbb', '*.cpp')))
+    flags = ['-std=c++11', '-O1', '-g0', '-w', '-fPIC', '-DNDEBUG', '-D__TBB_BUILD', '-D__TBB_USE_ITT_NOTIFY', '-D__TBB_GNU_ASM_VERSION=2040', '-mrtm', '-mwaitpkg',
+             '-fno-strict-overflow', '-fno-delete-null-pointer-checks', '-fwrapv', '-I', os.path.join(REPO, 'include')]
+
+    def one(src):
+        o = os.path.join(outdir, os.path.basename(src) + '.o')
+        p = subprocess.run(['g++'] + flags + ['-c', src, '-o', o], stdout=subprocess.PIPE, stderr=subprocess.STDOUT, timeout=600)
+        if p.returncode != 0:
+            raise NativeError('libtbb source build failed on %s: %s' % (src, p.stdout.decode(errors='replace')[-800:]))
+        return o
+    with cf.ThreadPoolExecutor(max_workers=jobs) as ex:
+        objs = list(ex.map(one, srcs))
+    lib = os.path.join(outdir, 'libtbb.so.12')
+    p = subprocess.run(['g++', '-shared', '-o', lib] + objs + ['-Wl,--version-script=' + os.path.join(REPO, 'src/tbb/def/lin64-tbb.def'), '-ldl', '-lpthread', '-Wl,-soname,libtbb.so.12'],
+                       stdout=subprocess.PIPE, stderr=subprocess.STDOUT, timeout=600)
+    if p.returncode != 0:
+        raise NativeError('libtbb link failed: ' + p.stdout.decode(errors='replace')[-800:])
+    if not os.path.exists(os.path.join(outdir, 'libtbb.so')):
+        os.symlink('libtbb.so.12', os.path.join(outdir, 'libtbb.so'))
+    return outdir
